@@ -3,21 +3,27 @@
 (* of ResolverGen and every order of visiting the function bodies that Go's *)
 (* map iteration and the depth-first topological walk can produce, the      *)
 (* multi-pass inference gives the declarative verdict and types.            *)
+(* Family "forms" (and Forms # {} in family "usage"): arguments of calls    *)
+(* and of length() in every form -- bare variable, (x), x "", x[length(x)], *)
+(* constant; VisitCall / VisitUse treat every form but the bare variable as *)
+(* an expression, and Exact / Sound / order independence hold for them.     *)
 (* Family "collect" (C19a) has no resolver run: its states are the sources  *)
 (* with several collected errors, and the invariant CollectDet says that    *)
 (* the error reported for each is the same for every walk over the table.   *)
 EXTENDS ResolverGen
 
-CONSTANTS Family,        \* "usage", "multi", "frames" or "collect"
+CONSTANTS Family,        \* "usage", "multi", "frames", "forms" or "collect"
           MapOrder,      \* "any" (as built) or "sorted" (iteration over sorted keys)
           CollectRel     \* "lex" (a total order on positions) or "either" (the refuted slip)
 
 Slots == CASE Family = "usage" -> UsageSlots [] Family = "multi" -> MultiSlots
            [] Family = "frames" -> FramesSlots [] Family = "collect" -> CollectSlots
+           [] Family = "forms" -> FormsSlots
 Opts(k, chosen) == CASE Family = "usage" -> SlotOpts(Slots[k], chosen) [] Family = "multi" -> MultiOpts(Slots[k])
                      [] Family = "frames" -> FramesOpts(Slots[k]) [] Family = "collect" -> CollectOpts(Slots[k], chosen)
+                     [] Family = "forms" -> FormsOpts(Slots[k])
 Program(chosen) == CASE Family = "usage" -> UsageProgram(chosen) [] Family = "multi" -> MultiProgram(chosen)
-                     [] Family = "frames" -> FramesProgram(chosen)
+                     [] Family = "frames" -> FramesProgram(chosen) [] Family = "forms" -> FormsProgram(chosen)
                      [] Family = "collect" -> [funcs |-> <<>>, main |-> <<>>, sites |-> CollectSites(chosen)]
 
 VARIABLES ch, built, prog, rs
